@@ -7,6 +7,7 @@ PROPS["C16"] = prop(
     "5/C16", "files-http+world",
     [Unit("TestC16Gate", "server", quick=400, thorough=20000, shards_quick=3, shards_thorough=16),
      Unit("TestC16Download", "server", quick=400, thorough=20000, shards_quick=2, shards_thorough=16),
+     Unit("TestC16Links", "server", quick=150, thorough=7500, shards_quick=3, shards_thorough=16),
      ],
     [],
 )
